@@ -6,7 +6,7 @@ import ast
 
 from ..astutil import const, inline, kwarg, returns, single_defs, unparse
 from ..effects import Effects, FRESH
-from ..index import AnalysisError, Class, Func, dotted, own_nodes
+from ..index import AnalysisError, Class, Func, dotted, own_nodes, parents
 from ..slots import check_field_completeness, class_call_sites
 from ..typestate import FieldFlow
 from .c04 import effects_for
@@ -40,12 +40,16 @@ def run(ctx, rep):
     rep.rule("N5", "module globals and class attributes are written from function bodies only in the documented setters", floor=1)
     rep.rule("N6", "projected-gradient algorithms: every field optimize reads that set_constraint_from_standard_qt_and_option can "
                    "set is (re)written by it on every call", floor=1)
+    rep.rule("N7", "loss / algorithm / estimator / experiment objects: a field derived from a method argument is stored on every path "
+                   "whose conditions depend on the arguments only; no store is skipped because of the object's earlier state (hidden "
+                   "memoisation keyed on less than the argument)", floor=25)
     _n1(ctx, rep)
     _n2(ctx, rep)
     _n3(ctx, rep)
     _n4(ctx, rep)
     _n5(ctx, rep)
     _n6(ctx, rep)
+    _n7(ctx, rep)
 
 
 # ------------------------------------------------------------------------------ N1
@@ -355,3 +359,73 @@ def _n6(ctx, rep):
                                         "option on the same algorithm object silently keeps the first projection" % stale, node=m.node)
         else:
             rep.holds("N6", m, con, "every such field is written on every path", node=m.node)
+
+
+# ------------------------------------------------------------------------------ N7
+N7_PKGS = ("quara.loss_function", "quara.minimization_algorithm", "quara.protocol", "quara.qcircuit")
+
+
+def _n7(ctx, rep):
+    """A field whose stored value is derived from a method argument must not be kept from an earlier call depending on the
+    object's own state: `if self._key != key: self._x = f(arg)` / `if self._x is not None: return` make the result of the next
+    call depend on the history of the object, not on its arguments."""
+    n = 0
+    for f in ctx.ix.funcs.values():
+        if not f.module.name.startswith(N7_PKGS) or f.parent is not None or f.cls is None or f.self_name is None:
+            continue
+        if f.name in ("__init__", "__post_init__"):
+            continue
+        if f.qualname.endswith("ProjectedGradientDescent.set_constraint_from_standard_qt_and_option"):
+            continue        # rule N6 owns this method (known finding F5)
+        params = list(f.params)
+        if not params:
+            continue
+        tainted = set(params)
+        assigns = [x for x in own_nodes(f.node) if isinstance(x, ast.Assign) and len(x.targets) == 1 and isinstance(x.targets[0], (ast.Name, ast.Tuple))]
+        for _ in range(3):
+            for a in assigns:
+                if any(isinstance(x, ast.Name) and x.id in tainted for x in ast.walk(a.value)):
+                    for t in ast.walk(a.targets[0]):
+                        if isinstance(t, ast.Name):
+                            tainted.add(t.id)
+        for st in own_nodes(f.node):
+            if not isinstance(st, ast.Assign):
+                continue
+            for t in st.targets:
+                if not (isinstance(t, ast.Attribute) and isinstance(t.value, ast.Name) and t.value.id == f.self_name):
+                    continue
+                src = sorted({x.id for x in ast.walk(st.value) if isinstance(x, ast.Name) and x.id in tainted})
+                if not src:
+                    continue
+                n += 1
+                guards = _state_guards(f, st)
+                con = "%s.%s: self.%s <- %s" % (f.cls.name, f.name, t.attr, ", ".join(src))
+                bad = [g for g in guards if any(isinstance(x, ast.Attribute) and isinstance(x.value, ast.Name) and x.value.id == f.self_name
+                                                and isinstance(x.ctx, ast.Load) for x in ast.walk(g))]
+                # a guard that only tests the argument-derived values (or parameters) is a function of the arguments
+                if bad:
+                    rep.violation("N7", f, con, "the store of self.%s (derived from the argument%s %s) is skipped depending on the object's own state "
+                                  "(`%s`): a later call with a different argument can keep the value computed for an earlier one"
+                                  % (t.attr, "s" if len(src) > 1 else "", ", ".join(src), unparse(bad[0])[:80]), node=st)
+                else:
+                    rep.holds("N7", f, con, "stored whenever the path conditions on the arguments allow", node=st)
+    rep.stats["N7_argument_derived_stores"] = n
+
+
+def _state_guards(f, st):
+    """tests that decide whether `st` is reached: enclosing if/while tests and earlier `if T: return` statements of the enclosing blocks"""
+    out = []
+    child = st
+    for p in parents(st):
+        if isinstance(p, (ast.If, ast.While)):
+            out.append(p.test)
+        for field in ("body", "orelse", "finalbody"):
+            blk = getattr(p, field, None)
+            if isinstance(blk, list) and any(child is x for x in blk):
+                for prev in blk[:[i for i, x in enumerate(blk) if x is child][0]]:
+                    if isinstance(prev, ast.If) and prev.body and isinstance(prev.body[-1], ast.Return):
+                        out.append(prev.test)
+        if isinstance(p, (ast.FunctionDef, ast.AsyncFunctionDef)):
+            break
+        child = p
+    return out
